@@ -391,24 +391,24 @@ func (c *Ctx) c09Writes() {
 	r := c.R
 	r.Rule("C09-5", "state written by module code outside fresh literals: package-level variables only in logger.SetupLogger / initialisers; fields of parser.Parser, builder.FunctionBuilder, builder.assignmentBuilder, option.Options (through a pointer) and the option matchers only at the confirmed sites")
 	allowed := map[string]string{
-		"parser.Parser.intfEntries@(*parser.Parser).Parse":                      "entry list kept for GenerateBaseCode, written once",
-		"builder.assignmentBuilder.copiers@(*builder.assignmentBuilder).build":  "per-function builder, fresh for each method",
-		"option.PatternMatcher.re@(*option.PatternMatcher).Match":               "cache re-derived from (pattern, case rule); invariant checked by C19-4",
-		"option.PatternMatcher.exactCase@(*option.PatternMatcher).Match":        "see above",
-		"option.FieldConverter.argType@(*option.FieldConverter).Set":            "resolved once per converter in Parse",
-		"option.FieldConverter.retType@(*option.FieldConverter).Set":            "resolved once per converter in Parse",
-		"option.FieldConverter.retError@(*option.FieldConverter).Set":           "resolved once per converter in Parse",
-		"model.Copier.HandleCount@(*builder/model.Copier).MarkHandle":                   "unused helper (not reachable from main)",
-		"model.Copier.IsRoot@(*builder.assignmentBuilder).build":                "fresh copier of this build",
-		"model.Copier.Name@(*builder.assignmentBuilder).build":                  "fresh copier of this build",
-		"config.Config.Input@(*config.Config).ParseArgs":                        "CLI parsing",
-		"config.Config.Output@(*config.Config).ParseArgs":                       "CLI parsing",
-		"config.Config.Log@(*config.Config).ParseArgs":                          "CLI parsing",
-		"config.Config.DryRun@(*config.Config).ParseArgs":                       "CLI parsing",
-		"config.Config.Prints@(*config.Config).ParseArgs":                       "CLI parsing",
-		"logger.option.enabled@logger.Enable$1":                                 "logger option closure",
-		"logger.option.out@logger.Output$1":                                     "logger option closure",
-		"logger.option.forTest@logger.ForTest$1":                                "logger option closure",
+		"parser.Parser.intfEntries@(*parser.Parser).Parse":                     "entry list kept for GenerateBaseCode, written once",
+		"builder.assignmentBuilder.copiers@(*builder.assignmentBuilder).build": "per-function builder, fresh for each method",
+		"option.PatternMatcher.re@(*option.PatternMatcher).Match":              "cache re-derived from (pattern, case rule); invariant checked by C19-4",
+		"option.PatternMatcher.exactCase@(*option.PatternMatcher).Match":       "see above",
+		"option.FieldConverter.argType@(*option.FieldConverter).Set":           "resolved once per converter in Parse",
+		"option.FieldConverter.retType@(*option.FieldConverter).Set":           "resolved once per converter in Parse",
+		"option.FieldConverter.retError@(*option.FieldConverter).Set":          "resolved once per converter in Parse",
+		"model.Copier.HandleCount@(*builder/model.Copier).MarkHandle":          "unused helper (not reachable from main)",
+		"model.Copier.IsRoot@(*builder.assignmentBuilder).build":               "fresh copier of this build",
+		"model.Copier.Name@(*builder.assignmentBuilder).build":                 "fresh copier of this build",
+		"config.Config.Input@(*config.Config).ParseArgs":                       "CLI parsing",
+		"config.Config.Output@(*config.Config).ParseArgs":                      "CLI parsing",
+		"config.Config.Log@(*config.Config).ParseArgs":                         "CLI parsing",
+		"config.Config.DryRun@(*config.Config).ParseArgs":                      "CLI parsing",
+		"config.Config.Prints@(*config.Config).ParseArgs":                      "CLI parsing",
+		"logger.option.enabled@logger.Enable$1":                                "logger option closure",
+		"logger.option.out@logger.Output$1":                                    "logger option closure",
+		"logger.option.forTest@logger.ForTest$1":                               "logger option closure",
 	}
 	n := 0
 	for _, fn := range c.P.Funcs() {
